@@ -7,7 +7,8 @@ domain (the argument types of the spec), purely syntactic, and refuses (leaves t
 the translator itself then raises `Unsupported`) whenever one of its side conditions cannot be checked
 on the AST.  On a function that uses none of these constructs the result is the input object itself, so
 the generated Lean text is unchanged.  This file is in the trusted base of the source tie together with
-py2lean.py (specification: notes/SRCTIE.md, "pre-pass"); the translator self-test
+py2lean.py (specification: this docstring and notes/SRCTIE_PREPASS.md); its own self-test
+(harness/py2lean_prepass_selftest.py: CPython against CPython, plus refusal cases) runs with every C07 check, and the translator self-test
 (harness/py2lean_selftest.py) compares the generated definitions with the real CPython function after
 the pre-pass, on every run.
 
